@@ -108,6 +108,13 @@ def contains(I, cont, x):
         cont = I.force(cont)
     if isinstance(cont, VEmptySet):
         return z3.BoolVal(False)
+    if isinstance(cont, VDRec):
+        c = const_of(x) if isinstance(x, VStr) else _NOCONST
+        if isinstance(c, str):
+            return cont.has(c)
+        if isinstance(x, VStr):
+            return z3.Or([z3.And(x.e == z3.StringVal(fn), cont.has(fn)) for fn in cont.t.fields] + [z3.BoolVal(False)])
+        return z3.BoolVal(False)
     if isinstance(cont, VJDict):
         return jsontree.contains(I, cont, x)
     if isinstance(cont, (VJSet, VJList)):
@@ -198,6 +205,14 @@ def subscript(I, o, k):
         for j in range(len(o.items) - 2, -1, -1):
             cur = I.ite(idx == j, o.items[j], cur)
         return cur
+    if isinstance(o, VDRec):
+        c = const_of(k) if isinstance(k, VStr) else _NOCONST
+        if not isinstance(c, str):
+            raise Unsupported("symbolic key into a dict-shaped record")
+        if c not in o.t.fields:
+            I.raise_exc("KeyError", c)
+        I.require_defined(o.has(c), "KeyError", c)
+        return o.field(c)
     if isinstance(o, VJDict):
         return jsontree.subscript(I, o, k)
     if isinstance(o, VJList):
@@ -278,8 +293,19 @@ def slice_(I, o, lo, hi):
 
 # --------------------------------------------------------------- map mutation primitives
 
+def check_literal_shape(I, v, t):
+    """a dict literal stored where a dict-shaped record is expected: its key set is an obligation"""
+    if isinstance(t, TDRec) and isinstance(v, VDictRec):
+        ok = drec_shape_ok(v, t)
+        I.path.prove(z3.BoolVal(ok), "%s/dict-shape:%s" % (I.cur_obl_prefix(), t.nm), "shape",
+                     where="keys %s == documented keys of %s" % (sorted(v.fields), t.nm))
+        if not ok:
+            raise PathEnd("dict literal of the wrong shape")
+
+
 def map_store(I, m, kk, v):
     """m[kk] = v  (kk z3 key expr)"""
+    check_literal_shape(I, v, m.vt)
     was = z3.Select(m.dom, kk)
     ve = unwrap(v, m.vt)
     I.ver.on_map_store(I, m, kk, ve, was)
@@ -458,7 +484,7 @@ def get_attribute(I, o, name, default=_NOCONST):
     elif isinstance(o, VMap):
         if name in MAP_METHODS:
             return VFunc("bmethod", name, selfv=o)
-    elif isinstance(o, (VDictRec, VJDict)):
+    elif isinstance(o, (VDictRec, VJDict, VDRec)):
         if name in MAP_METHODS:
             return VFunc("bmethod", name, selfv=o)
     elif isinstance(o, VJList):
@@ -731,6 +757,8 @@ def bi_len(I, args, kw):
         return VInt(len(v.items))
     if isinstance(v, VDictRec):
         return VInt(len(v.fields))
+    if isinstance(v, VDRec):
+        return VInt(z3.Sum([z3.If(v.has(fn), 1, 0) for fn in v.t.fields] + [z3.IntVal(0)]))
     if isinstance(v, VJDict):
         return VInt(len(v.slots))
     if isinstance(v, (VJSet, VJList)):
@@ -943,7 +971,7 @@ def _isinst(I, v, nm):
         return nm in ("str",)
     if isinstance(v, VNone):
         return nm == "NoneType"
-    if isinstance(v, VJDict):
+    if isinstance(v, (VJDict, VDRec)):
         return nm in ("dict", "Mapping", "MutableMapping")
     if isinstance(v, VJSet):
         return nm == "set"
@@ -1106,6 +1134,8 @@ def bi_dict(I, args, kw):
     if not args:
         return VDictRec(dict(kw))
     v = I.force(args[0])
+    if isinstance(v, VDRec):
+        return v
     if isinstance(v, VJDict):
         return VJDict(v.slots)
     if isinstance(v, VDictRec):
@@ -1384,6 +1414,8 @@ def call_bmethod(I, o, name, args, kw):
             return VEmptyList()
     if isinstance(o, VMap):
         return map_method(I, o, name, args, kw)
+    if isinstance(o, VDRec):
+        return drec_method(I, o, name, args, kw)
     if isinstance(o, VJDict):
         return jsontree.method(I, o, name, args, kw)
     if isinstance(o, VJList):
@@ -1405,6 +1437,7 @@ def seq_method(I, o, name, args, kw):
     p = I.path
     i = z3.Int("sm_i")
     if name == "append":
+        check_literal_shape(I, args[0], o.et)
         o.arr = z3.Store(o.arr, o.n, unwrap(args[0], o.et))
         o.n = z3.simplify(o.n + 1)
         o.writeback()
@@ -1564,6 +1597,15 @@ def map_method(I, m, name, args, kw):
             for k2, v2 in other.fields.items():
                 map_store(I, m, z3.StringVal(k2), v2)
             return VNone()
+        if isinstance(other, VMap) and other.kt == m.kt and other.vt == m.vt and const_of(VInt(m.card)) == 0 \
+                and (m.order is None or other.order is not None) and not I.ver._aggs_for(m):
+            # update of an *empty* dict (e.g. right after .clear()): the result is a copy of the argument
+            m.dom, m.val, m.card = other.dom, other.val, other.card
+            if m.order is not None:
+                m.order.arr, m.order.n = other.order.arr, other.order.n
+                m.pos = getattr(other, "pos", None)
+            m.writeback()
+            return VNone()
         raise Unsupported("dict.update with symbolic map")
     if name == "move_to_end":
         if m.order is None:
@@ -1596,6 +1638,44 @@ def map_method(I, m, name, args, kw):
         map_remove(I, m, kk)
         return r
     raise Unsupported("dict.%s" % name)
+
+
+def drec_method(I, d, name, args, kw):
+    """methods of a dict-shaped record (read-only dict protocol)"""
+    if name == "get":
+        k = args[0] if I.spec else I.force(args[0])
+        c = const_of(k) if isinstance(k, VStr) else _NOCONST
+        default = args[1] if len(args) > 1 else kw.get("default", VNone())
+        if not isinstance(c, str):
+            if not isinstance(k, VStr):
+                return default
+            raise Unsupported("symbolic key lookup in a dict-shaped record")
+        if c not in d.t.fields:
+            return default
+        val = d.field(c)
+        if c in d.t.required:
+            return val
+        ft = d.t.fields[c]
+        if isinstance(default, VDictRec) and not default.fields and isinstance(ft, TMap):
+            default = I.empty_map(ft)
+        if isinstance(default, VEmptyList) and isinstance(ft, TList):
+            default = VSeq(z3.K(z3.IntSort(), I.default_of(ft.elem)), z3.IntVal(0), ft.elem, ft.kind)
+        present = d.has(c)
+        try:
+            if isinstance(default, VNone):
+                t = ft if isinstance(ft, TOpt) else TOpt(ft)
+                return t.wrap(z3.If(present, unwrap(val, t), t.none()))
+            return I.ite(present, val, default)
+        except (Unsupported, TypeError):
+            pass
+        if I.spec:
+            raise Unsupported("dict-shaped record .get with an incompatible default in a specification")
+        if I.path.branch(present):
+            return val
+        return default
+    if name == "copy":
+        return d
+    raise Unsupported("dict-shaped record .%s" % name)
 
 
 def dictrec_method(I, d, name, args, kw):
